@@ -3,6 +3,9 @@
 package home
 
 import (
+	"log/slog"
+	"net/http"
+
 	"github.com/AdguardTeam/AdGuardHome/internal/client"
 	"github.com/AdguardTeam/AdGuardHome/internal/querylog"
 )
@@ -17,4 +20,43 @@ func VerifClientsContainer(
 	cc := &clientsContainer{storage: st, clientChecker: checker}
 
 	return cc.findMultiple, cc.shouldCountClient
+}
+
+// VerifClients exposes a real clientsContainer wired around a storage.
+type VerifClients struct{ cc *clientsContainer }
+
+// VerifNewClients builds the container the way home does (testing mode: the
+// handlers do not write the configuration file).
+func VerifNewClients(st *client.Storage, checker BlockedClientChecker) (v *VerifClients) {
+	return &VerifClients{cc: &clientsContainer{
+		baseLogger:    slog.New(slog.DiscardHandler),
+		storage:       st,
+		clientChecker: checker,
+		testing:       true,
+	}}
+}
+
+func (v *VerifClients) FindMultiple(ids []string) (c *querylog.Client, err error) {
+	return v.cc.findMultiple(ids)
+}
+
+func (v *VerifClients) ShouldCount(ids []string) (ok bool) { return v.cc.shouldCountClient(ids) }
+
+// Handler returns one of the clients HTTP handlers: list, add, update, delete,
+// search.
+func (v *VerifClients) Handler(name string) (h http.HandlerFunc) {
+	switch name {
+	case "list":
+		return v.cc.handleGetClients
+	case "add":
+		return v.cc.handleAddClient
+	case "update":
+		return v.cc.handleUpdateClient
+	case "delete":
+		return v.cc.handleDelClient
+	case "search":
+		return v.cc.handleSearchClient
+	}
+
+	return nil
 }
